@@ -63,6 +63,7 @@ inline void ApplyPrefix(Machine& m, int p) {
             t.MMIOWrite(0xC0 + c * 4, (u16)(0x2200 + c));
         }
         t.SetSemaphore(0x8001);
+        t.MaskSemaphore(0x00F0); // the host masks some DSP->host semaphores: the mask gates the signal and the interrupt only, the bits still accumulate
         t.MMIOWrite(0xCC, 0x4002);
         break;
     case 4: // ICU routing set, requests pending
